@@ -95,6 +95,11 @@ fn real_main() {
             out.flush();
             std::process::exit(if bad == 0 { 0 } else { 1 });
         }
+        "replay_opts" => {
+            let bad = fam_misc::replay_opts(args.extra.first().expect("replay file"), &mut out);
+            out.flush();
+            std::process::exit(if bad == 0 { 0 } else { 1 });
+        }
         "dispatch" => fam_dispatch::run(&mut out, args.seed),
         "contend" => fam_dispatch::run_n(&mut out, args.seed, if args.thorough { 400 } else { 60 }),
         "c11big" => fam_gen::run_c11big(&mut out, &mut rng, only, !args.extra.iter().any(|x| x == "--no-giant" || x == "--only-blocks"), !args.extra.iter().any(|x| x == "--only-giant" || x == "--only-blocks")),
